@@ -147,7 +147,11 @@ fn cell(idx: u64, seed: u64, variant: u64, rec: &mut Rec) {
     let mut req_body = vec![];
     if body_method {
         req_body = b"hello world".to_vec();
-        if idx % 2 == 0 {
+        if idx % 3 == 2 {
+            // an empty body with its length declared
+            req_body.clear();
+            cfg.orig.push(("content-length".into(), b"0".to_vec()));
+        } else if idx % 2 == 0 {
             cfg.orig.push(("content-length".into(), b"11".to_vec()));
         }
         if hs != "none" {
